@@ -1127,6 +1127,222 @@ Proof.
     destruct (find_field o 0 n) as [[[j d]|]| | |]; cbn [obind] in *; try discriminate. reflexivity.
 Qed.
 
+(* ------------------------------------------------------------------ values under a new top layer *)
+
+Section TopPush.
+  (* [e] is [o] with one more layer on top; the names selected by [hid] are not found from
+     the top of [e], every other lookup is the one of [o], renumbered *)
+  Variables (o e : obj) (hid : name -> bool).
+  Hypothesis Hin : forall i m, find_field e (i + 1) m = res_shift 1 (find_field o i m).
+  Hypothesis Htop : forall m, hid m = false -> find_field e 0 m = res_shift 1 (find_field o 0 m).
+  Hypothesis Hhid : forall m, hid m = true -> find_field e 0 m = Ok None.
+  Hypothesis Hlen : length (super_layers e) = S (length (super_layers o)).
+
+  (* same outcome, or the evaluation in [e] stopped at a read of a hidden name *)
+  Definition top_rel (re ro : res value) : Prop :=
+    re = ro \/ ((exists g, hid g = true) /\ re = Err EUnknownField).
+
+  Lemma top_rel_bind : forall (a b : res value) (f g : value -> res value),
+    top_rel a b -> (forall v, top_rel (f v) (g v)) -> top_rel (obind a f) (obind b g).
+  Proof.
+    intros a b f g [->|[Hg ->]] H.
+    - destruct b; cbn [obind]; try (left; reflexivity). apply H.
+    - right. split; auto.
+  Qed.
+
+  Lemma top_rel_refl : forall r, top_rel r r.
+  Proof. intros r. left. reflexivity. Qed.
+
+  Definition sh (t : thunk_id) : thunk_id := (fst t + 1, snd t).
+
+  Lemma in_progress_sh : forall vs j m, in_progress (map sh vs) (j + 1) m = in_progress vs j m.
+  Proof.
+    induction vs as [|[k x] r IH]; intros j m; cbn [map in_progress sh fst snd]; auto.
+    rewrite IH. f_equal. f_equal.
+    destruct (k =? j) eqn:E.
+    - apply N.eqb_eq in E. subst. apply N.eqb_refl.
+    - apply N.eqb_neq in E. apply N.eqb_neq. lia.
+  Qed.
+
+  Lemma find_ok : forall i m, exists x, find_field o i m = Ok x.
+  Proof. intros i m. apply no_panic_no_fuel. Qed.
+
+  Lemma sim_top : forall fuel,
+    (forall vs i b, top_rel (eval_body fuel e (map sh vs) (i + 1) b) (eval_body fuel o vs i b)) /\
+    (forall vs j m d, top_rel (eval_thunk fuel e (map sh vs) (j + 1) m d) (eval_thunk fuel o vs j m d)).
+  Proof.
+    induction fuel as [|fuel [IHb IHt]]; [split; intros; apply top_rel_refl|].
+    split.
+    - intros vs i b. destruct b as [z| |g|g|g|x y|r]; cbn [eval_body]; try apply top_rel_refl.
+      + (* BSelf *)
+        destruct (hid g) eqn:Hg.
+        * rewrite (Hhid g Hg). cbn [obind]. right. split; eauto.
+        * rewrite (Htop g Hg). destruct (find_ok 0 g) as [x ->]. cbn [res_shift obind].
+          destruct x as [[j d]|]; cbn [option_map shift fst snd]; [apply IHt | apply top_rel_refl].
+      + (* BSuper *)
+        rewrite Hlen.
+        assert (Hc : (i + 1 =? N.of_nat (S (length (super_layers o)))) = (i =? N.of_nat (length (super_layers o)))).
+        { destruct (i =? N.of_nat (length (super_layers o))) eqn:E.
+          - apply N.eqb_eq in E. apply N.eqb_eq. lia.
+          - apply N.eqb_neq in E. apply N.eqb_neq. lia. }
+        rewrite Hc. destruct (i =? N.of_nat (length (super_layers o))); [apply top_rel_refl|].
+        rewrite Hin. destruct (find_ok (i + 1) g) as [x ->]. cbn [res_shift obind].
+        destruct x as [[j d]|]; cbn [option_map shift fst snd]; [apply IHt | apply top_rel_refl].
+      + (* BInSuper *)
+        unfold has_field. rewrite Hin. destruct (find_ok (i + 1) g) as [x ->]. cbn [res_shift obind].
+        destruct x as [[j d]|]; apply top_rel_refl.
+      + (* BAdd *)
+        apply top_rel_bind; [apply IHb|]. intros vx. apply top_rel_bind; [apply IHb|]. intros vy. apply top_rel_refl.
+    - intros vs j m d. cbn [eval_thunk]. rewrite in_progress_sh.
+      destruct (in_progress vs j m); [apply top_rel_refl|].
+      change ((j + 1, m) :: map sh vs) with (map sh ((j, m) :: vs)).
+      destruct (f_plus d); [|apply IHb].
+      rewrite Hin. destruct (find_ok (j + 1) m) as [x ->]. cbn [res_shift obind].
+      destruct x as [[j2 d2]|]; cbn [option_map shift fst snd]; [|apply IHb].
+      apply top_rel_bind; [apply IHt|]. intros vx. apply top_rel_bind; [apply IHb|]. intros vy. apply top_rel_refl.
+  Qed.
+
+  Lemma eval_field_top : forall m, hid m = false -> top_rel (eval_field e m) (eval_field o m).
+  Proof.
+    intros m Hm. unfold eval_field. rewrite (Htop m Hm). destruct (find_ok 0 m) as [x ->]. cbn [res_shift obind].
+    destruct x as [[j d]|]; cbn [option_map shift fst snd]; [|apply top_rel_refl].
+    apply (proj2 (sim_top eval_fuel) [] j m d).
+  Qed.
+End TopPush.
+
+(* std.objectRemoveKey(o, n): a field other than n evaluates as before, unless its
+   evaluation reads self.n (then it stops with "unknown field") *)
+Theorem remove_key_values : forall o n m, m <> n ->
+  eval_field (remove_key o n) m = eval_field o m \/
+  eval_field (remove_key o n) m = Err EUnknownField.
+Proof.
+  intros o n m Hm.
+  destruct (remove_key_exact o n) as (H0 & _ & Hoth & _ & Hin). cbn zeta in *.
+  assert (R : top_rel (fun g => name_eqb g n) (eval_field (remove_key o n) m) (eval_field o m)).
+  { apply eval_field_top.
+    - exact Hin.
+    - intros g Hg. apply Hoth. apply name_eqb_neq. exact Hg.
+    - intros g Hg. apply name_eqb_eq in Hg. subst g. exact H0.
+    - reflexivity.
+    - apply name_eqb_neq. exact Hm. }
+  destruct R as [R|[_ R]]; auto.
+Qed.
+
+(* o + {}: values and manifestation too *)
+Theorem extend_empty_r_values : forall o, wf_obj o ->
+  (forall m, eval_field (extend o empty_obj) m = eval_field o m) /\
+  manifest (extend o empty_obj) = manifest o.
+Proof.
+  intros o Hwf. destruct (extend_empty_r o Hwf) as (Htop & Hin & _ & _ & Hvis & _). cbn zeta in *.
+  assert (Hv : forall m, eval_field (extend o empty_obj) m = eval_field o m).
+  { intros m.
+    assert (R : top_rel (fun _ => false) (eval_field (extend o empty_obj) m) (eval_field o m)).
+    { apply eval_field_top.
+      - exact Hin.
+      - intros g _. apply Htop.
+      - intros g Hg. discriminate.
+      - unfold extend, empty_obj. cbn [super_layers self_layer app length]. reflexivity.
+      - reflexivity. }
+    destruct R as [R|[[g Hg] _]]; [exact R | discriminate Hg]. }
+  split; [exact Hv|]. unfold manifest. rewrite Hvis.
+  generalize (get_visible_fields_order o). intros ns.
+  induction ns as [|k r IH]; cbn [eval_fields]; [reflexivity|].
+  rewrite Hv, IH. reflexivity.
+Qed.
+
+(* ------------------------------------------------------------------ values over a new empty base layer *)
+
+Lemma find_field_beyond : forall o i n, N.of_nat (length (layers o)) <= i -> find_field o i n = Ok None.
+Proof.
+  intros o i n H. rewrite find_field_spec. rewrite skipn_all2 by lia. reflexivity.
+Qed.
+
+Lemma find_field_index_lt : forall o i n j d,
+  find_field o i n = Ok (Some (j, d)) -> j <= N.of_nat (length (super_layers o)).
+Proof.
+  intros o i n j d H. apply find_field_found in H. destruct H as (_ & l & Hn & _).
+  assert (Hl : (N.to_nat j < length (layers o))%nat) by (apply nth_error_Some; congruence).
+  rewrite layers_length in Hl. lia.
+Qed.
+
+Local Opaque eval_fuel.
+
+Section BottomPush.
+  (* [e] is [o] over one more, empty, base layer: every lookup is the one of [o] *)
+  Variables (o e : obj).
+  Hypothesis Hf : forall i m, find_field e i m = find_field o i m.
+  Hypothesis Hlen : length (super_layers e) = S (length (super_layers o)).
+
+  (* same outcome, except that `super` in the old base layer, which had no super object,
+     now finds an (empty) one and reports the field as unknown *)
+  Definition bot_rel (re ro : res value) : Prop :=
+    re = ro \/ (re = Err EUnknownField /\ ro = Err ENoSuper).
+
+  Lemma bot_rel_bind : forall (a b : res value) (f g : value -> res value),
+    bot_rel a b -> (forall v, bot_rel (f v) (g v)) -> bot_rel (obind a f) (obind b g).
+  Proof.
+    intros a b f g [->|[-> ->]] H.
+    - destruct b; cbn [obind]; try (left; reflexivity). apply H.
+    - right. split; reflexivity.
+  Qed.
+
+  Lemma bot_rel_refl : forall r, bot_rel r r.
+  Proof. intros r. left. reflexivity. Qed.
+
+  Notation len_o := (N.of_nat (length (super_layers o))).
+
+  Lemma sim_bot : forall fuel,
+    (forall vs i b, i <= len_o -> bot_rel (eval_body fuel e vs i b) (eval_body fuel o vs i b)) /\
+    (forall vs j m d, j <= len_o -> bot_rel (eval_thunk fuel e vs j m d) (eval_thunk fuel o vs j m d)).
+  Proof.
+    induction fuel as [|fuel [IHb IHt]]; [split; intros; apply bot_rel_refl|].
+    split.
+    - intros vs i b Hi. destruct b as [z| |g|g|g|x y|r]; cbn [eval_body]; try apply bot_rel_refl.
+      + (* BSelf *)
+        rewrite Hf. destruct (find_field o 0 g) as [[[j d]|]| | |] eqn:F; cbn [obind]; try apply bot_rel_refl.
+        apply IHt. eapply find_field_index_lt. exact F.
+      + (* BSuper *)
+        rewrite Hlen.
+        assert (Hc : (i =? N.of_nat (S (length (super_layers o)))) = false) by (apply N.eqb_neq; lia).
+        rewrite Hc. rewrite Hf. destruct (i =? N.of_nat (length (super_layers o))) eqn:E.
+        * apply N.eqb_eq in E. rewrite find_field_beyond by (rewrite layers_length; lia).
+          cbn [obind]. right. split; reflexivity.
+        * destruct (find_field o (i + 1) g) as [[[j d]|]| | |] eqn:F; cbn [obind]; try apply bot_rel_refl.
+          apply IHt. eapply find_field_index_lt. exact F.
+      + (* BInSuper *)
+        unfold has_field. rewrite Hf. apply bot_rel_refl.
+      + (* BAdd *)
+        apply bot_rel_bind; [apply IHb; exact Hi|]. intros vx.
+        apply bot_rel_bind; [apply IHb; exact Hi|]. intros vy. apply bot_rel_refl.
+    - intros vs j m d Hj. cbn [eval_thunk].
+      destruct (in_progress vs j m); [apply bot_rel_refl|].
+      destruct (f_plus d); [|apply IHb; exact Hj].
+      rewrite Hf. destruct (find_field o (j + 1) m) as [[[j2 d2]|]| | |] eqn:F; cbn [obind]; try apply bot_rel_refl.
+      * apply bot_rel_bind; [apply IHt; eapply find_field_index_lt; exact F|]. intros vx.
+        apply bot_rel_bind; [apply IHb; exact Hj|]. intros vy. apply bot_rel_refl.
+      * apply IHb. exact Hj.
+  Qed.
+
+  Lemma eval_field_bot : forall m, bot_rel (eval_field e m) (eval_field o m).
+  Proof.
+    intros m. unfold eval_field. rewrite Hf.
+    destruct (find_field o 0 m) as [[[j d]|]| | |] eqn:F; cbn [obind];
+      [|left; reflexivity|left; reflexivity|left; reflexivity|left; reflexivity].
+    apply (proj2 (sim_bot eval_fuel) [] j m d). eapply find_field_index_lt. exact F.
+  Qed.
+End BottomPush.
+
+(* {} + o: values too, up to the one error kind that tells a missing super object from a missing field *)
+Theorem extend_empty_l_values : forall o m, wf_obj o ->
+  eval_field (extend empty_obj o) m = eval_field o m \/
+  (eval_field (extend empty_obj o) m = Err EUnknownField /\ eval_field o m = Err ENoSuper).
+Proof.
+  intros o m Hwf. destruct (extend_empty_l o Hwf) as (Hf & _). cbn zeta in Hf.
+  assert (Hlen : length (super_layers (extend empty_obj o)) = S (length (super_layers o))).
+  { unfold extend, empty_obj. cbn [super_layers self_layer]. rewrite app_length. cbn [length app]. lia. }
+  exact (eval_field_bot o (extend empty_obj o) Hf Hlen m).
+Qed.
+
 (* ------------------------------------------------------------------ the state machine as first found *)
 
 Module Old.
